@@ -17,8 +17,13 @@ prop("C08", "other",
      bounded=[B.c08_histories])
 
 prop("C01", "other",
-     "Per-keyword validator contracts (raise iff the Draft-6 clause fails, type guard, no other exception) discharged for all inputs; "
-     "the composition parse_element -> Element.__call__ is covered by the bounded pipeline comparison against an independent Draft-6 oracle.",
+     'Deductive (all inputs): per-keyword validator contracts (raise iff the Draft-6 clause fails, type guard, no other exception); '
+     'Validator.from_element[K]; get_validators / Element.validators[K] / ObjectMeta.validators characterised completely (which validators, with which '
+     'parameters, nothing else); Element.__call__[K] and Object.__new__ raise iff a validator rejects or construct fails; lemma family VALS-D6 over these '
+     "contracts gives, per element class, sem(e, x) <=> every keyword clause with e's own keyword values, the type clause, the additionalProperties "
+     "validator, and construct succeeds. Not deductive: construct's recursion into items/properties (Items.__call__, Properties.__call__ have contracts that "
+     "are not yet composed), MultipleOf's binary64 arithmetic, the parser. Those are covered by the bounded pipeline comparison parse_element -> "
+     'Element.__call__ against an independent Draft-6 oracle.',
      bounded=[B.c01_pipeline])
 
 prop("C10", "other",
@@ -37,8 +42,11 @@ prop("C09", "other",
      bounded=[B.c09_hashseeds])
 
 prop("C05", "other",
-     "Default clauses of Element.__call__/Object.__new__/Properties.__call__/_PropertyDict.required under contract (deductive, where in reach); "
-     "bounded: object schemas x all subsets of supplied properties, every pool element called with no value.",
+     'Deductive: Element.__call__[K] (no value: NotPassed without default, else the default converted as if supplied when accepted and the raw default when '
+     'not, never an error; a supplied value is never replaced), Object.__new__ (same clause for model classes), '
+     'Properties.__init__/__getitem__/__contains__, _PropertyDict.required (required waived by a default), Required.from_element. Undecided: '
+     'Properties.__call__ (placeholder injection: dict merge + comprehension). Not deductive: Object.__init__ (setattr with computed names). Bounded: object '
+     'schemas x subsets of supplied properties x valid/invalid/nested defaults, every element called with no value.',
      bounded=[B.c05_defaults])
 
 prop("C16", "other",
@@ -72,7 +80,10 @@ prop("C20", "other",
      bounded=[B3.c20_unsupported, B3.c20_cli_cycles])
 
 prop("C11", "other",
-     "orderer/get_children/_get_path contracts where in reach; bounded: all listed dependency graphs x keyword positions, and call histories.",
+     'Deductive: get_children yields every element at a direct keyword position (items, additionalItems, contains, additionalProperties, propertyNames, '
+     'element) -- loop invariant in membership form, recursion by its own contract; _get_path verified per constant path (the three `*` paths assumed). Not '
+     "deductive: orderer's main loop (while True over a dict being edited, ended by StopIteration). Bounded: named dependency graphs x 20 keyword positions, "
+     'call histories; thorough: every digraph on <= 3 classes x every position and every loop-free digraph on 4 classes x 4 positions.',
      bounded=[B3.c11_order])
 
 prop("C12", "other",
@@ -81,8 +92,11 @@ prop("C12", "other",
      bounded=[B3.c12_names, B3.c12_siblings, B3.c12_titles, B3.c12_class_names, B3.c12_codepoints])
 
 prop("C17", "other",
-     "__eq__ contracts (Element, _Property) where in reach; bounded: all pairs of element variants one keyword/literal/property attribute/class apart: "
-     "reflexive, symmetric, copies equal, == implies same verdicts and same JSON serialisation.",
+     'Deductive: _Property.__eq__ (same element by ==, same required flag, same JSON name; never equal to a non-property); the validators of an element are '
+     'a function of its public keyword attributes (Element.validators[K] characterisation and theorem VALS-D6: sem depends only on keyword values, the type, '
+     'construct); replace_bool/Const/Enum (== after deep bool aliasing is Draft-6 equality). Not deductive: Element.__eq__ itself (structural == over '
+     'vars()). Bounded: all pairs of element variants one keyword/literal/property attribute/class apart: reflexive, symmetric, copies equal, == implies '
+     'same verdicts and same JSON serialisation.',
      bounded=[B3.c17_equality])
 
 prop("C18", "other",
@@ -90,8 +104,10 @@ prop("C18", "other",
      bounded=[B3.c18_repr])
 
 prop("C19", "other",
-     "annotation functions under contract at the type-term level where in reach; bounded: the annotation *text* is parsed into a type term and the runtime attribute "
-     "values of built models are checked against it.",
+     "Deductive: Element.annotation per leaf class names exactly the Python type the class's type validator admits; Null/Nothing; _Property.annotation (the "
+     'optional wrapper is absent exactly when the property is required or its element declares a default); ObjectMeta.annotation; Array.item_annotations / '
+     'Array.annotation; CompositionElement.annotation (single branch). Not deductive: reading annotation text as a type (AllOf.annotation, unions). Bounded: '
+     'the annotation text is parsed into a type term and the runtime attribute values of built models are checked against it.',
      bounded=[B3.c19_annotations])
 
 prop("C02", "other",
